@@ -110,12 +110,24 @@ def try_mutant(k, m):
         r = subprocess.run(["make", "-s", "-C", d, "CFLAGS=-O2 -w"], stdout=subprocess.DEVNULL, stderr=subprocess.DEVNULL)
         if r.returncode:
             return "nocompile"
+        pr = subprocess.Popen(["sh", "mytest.sh"], cwd=d, stdout=subprocess.PIPE, stderr=subprocess.DEVNULL,
+                              stdin=subprocess.DEVNULL, start_new_session=True)
         try:
-            r = subprocess.run(["sh", "mytest.sh"], cwd=d, stdout=subprocess.PIPE, stderr=subprocess.DEVNULL,
-                               stdin=subprocess.DEVNULL, timeout=60, start_new_session=True)
+            out, _ = pr.communicate(timeout=60)
         except subprocess.TimeoutExpired:
-            subprocess.run("pkill -9 -f %s/vi" % d, shell=True)
+            try:
+                os.killpg(pr.pid, 9)
+            except OSError:
+                pass
+            pr.wait()
             return "test-hang"
+        finally:
+            try:
+                os.killpg(pr.pid, 9)	# stragglers of the session (a vi that ignores EOF)
+            except OSError:
+                pass
+        class R: pass
+        r = R(); r.stdout = out; r.returncode = pr.returncode
         ok = r.stdout.decode(errors="replace").count("OK")
         return "survives" if (r.returncode == 0 and ok == 60) else "killed-by-tests"
     finally:
@@ -137,20 +149,24 @@ def gen(files):
     outp = os.path.join(W, "survivors.jsonl")
     tally = {}
 
+    import threading
+    lock = threading.Lock()
+
     def run(k):
         res = []
         for m in chunks[k]:
             m["status"] = try_mutant(k, m)
             res.append(m)
+            if m["status"] == "survives":
+                with lock:
+                    with open(outp, "a") as f:
+                        f.write(json.dumps(m) + "\n")
         return res
     with ThreadPoolExecutor(nw) as ex:
         results = list(ex.map(run, range(nw)))
-    with open(outp, "a") as f:
-        for res in results:
-            for m in res:
-                tally[m["status"]] = tally.get(m["status"], 0) + 1
-                if m["status"] == "survives":
-                    f.write(json.dumps(m) + "\n")
+    for res in results:
+        for m in res:
+            tally[m["status"]] = tally.get(m["status"], 0) + 1
     print(tally)
 
 
